@@ -14,18 +14,86 @@ from .core import Ctx
 from .loader import AnalysisError
 
 
-def run_check(pid, tier, prog=None, quiet=False):
+class AnalysisTimeout(Exception):
+    pass
+
+
+def guard_resources(mem_gb=6):
+    """A change to the repository can make the abstract evaluation blow up (exponential case split); that must end as
+    'no verdict' (exit 2), never as a killed process.  Address-space cap for this process."""
+    try:
+        import resource
+        lim = int(os.environ.get("SA_MEM_GB", mem_gb)) << 30
+        soft, hard = resource.getrlimit(resource.RLIMIT_AS)
+        if hard != resource.RLIM_INFINITY:
+            lim = min(lim, hard)
+        resource.setrlimit(resource.RLIMIT_AS, (lim, hard))
+    except Exception:
+        pass
+
+
+def _alarm(_sig, _frm):
+    raise AnalysisTimeout()
+
+
+def run_check(pid, tier, prog=None, quiet=False, timeout=None):
     ctx = Ctx(pid, tier, prog)
+    err = None
+    import signal
+    timeout = timeout or int(os.environ.get("SA_TIMEOUT", 600))
+    old = None
+    try:
+        old = signal.signal(signal.SIGALRM, _alarm)
+        signal.alarm(timeout)
+    except Exception:
+        old = None
+    try:
+        ctx, err = _run_check(ctx, pid, tier)
+    finally:
+        if old is not None:
+            signal.alarm(0)
+            signal.signal(signal.SIGALRM, old)
+    return ctx, err
+
+
+def definite_assignment(ctx):
+    """Generic rule over every function the property's rules evaluated: a local that no statement on the path assigned
+    is never read (the behaviour the rules decide is otherwise a NameError / UnboundLocalError)."""
+    seen = set()
+    n = 0
+    from . import evalr
+    for tr in list(evalr.ALL_TRACES):
+        for e in tr.events:
+            if e.kind != "undefread" or e.func is None:
+                continue
+            k = (e.func.qualname, e.name)
+            if k in seen:
+                continue
+            seen.add(k)
+            n += 1
+            ctx.ob("DA", e.func.qualname, "local %s is assigned before it is read" % e.name, False,
+                   "no statement on the path to this read assigns %s" % e.name, e)
+    ctx.ob("DA", "*", "every local read in the evaluated functions is assigned on the path to the read", True,
+           "%d traces, %d definite reads of unassigned locals" % (len(evalr.ALL_TRACES), n), nontrivial=False)
+
+
+def _run_check(ctx, pid, tier):
     err = None
     try:
         mod = importlib.import_module("sa.rules.%s" % pid.lower())
         mod.run(ctx)
         if tier == "thorough" and hasattr(mod, "run_thorough"):
             mod.run_thorough(ctx)
+        definite_assignment(ctx)
     except AnalysisError as e:
         err = "AnalysisError: %s" % e
     except RecursionError as e:
         err = "RecursionError: %s" % e
+    except MemoryError:
+        ctx._traces.clear()
+        err = "MemoryError: the abstract evaluation exceeded the memory cap (case split blow-up)"
+    except AnalysisTimeout:
+        err = "timeout: the abstract evaluation did not finish within the time limit"
     except Exception as e:  # a traceback must never look like a verdict
         err = "internal error: %s: %s\n%s" % (type(e).__name__, e, traceback.format_exc(limit=6))
     if ctx.anchor_errors:
@@ -47,6 +115,7 @@ def main(argv):
         print(__doc__)
         return 2
     pid = args[0].upper()
+    guard_resources()
     ctx, err = run_check(pid, tier)
     if err is None and tier == "thorough":
         try:
